@@ -201,6 +201,16 @@ def record(job):
                         g = None
                         outcome = type(e).__name__
                     edits, new, fw, changed, xr = [], [], [], False, []
+                    cur = True
+                    lone = where is not None and 0 <= where < k and not any(
+                        q != spaths[where] and q[:len(spaths[where])] == spaths[where] for q in spaths)
+                    if g is not None and lone:      # (a statement cursor takes every site at or beneath it: compared where that is one site)
+                        # the same site named by its cursor instead of its index
+                        try:
+                            g2 = apply(strat, f, sites[where], kw)
+                            cur = g2.format() == g.format()
+                        except Exception:       # noqa: BLE001
+                            cur = False
                     if g is not None:
                         log = g.edits
                         if log is None:
@@ -214,7 +224,23 @@ def record(job):
                             fw.append({'p': enc_stmt(p), 'r': fw_json(g, StmtCursor(f.ast, p))})
                     recs.append({'prog': name, 'src': text, 'config': cname, 'where': -999 if where is None else where,
                                  'outcome': outcome, 'changed': changed, 'sites': spaths, 'refused': rpaths, 'cand': cand,
-                                 'edits': edits, 'old': old if g is not None else [], 'new': new, 'fw': fw, 'xr': xr})
+                                 'edits': edits, 'old': old if g is not None else [], 'new': new, 'fw': fw, 'xr': xr, 'cur': cur})
+            # `within`: the listing restricted to a statement is the part of the full listing at or beneath it
+            for (cname, strat, kw, cand_pred) in configs()[:4]:
+                skw = dict(kw)
+                try:
+                    full = [enc_stmt(c.path) for c in S.sites(strat, f, **skw) if isinstance(c, StmtCursor)]
+                except Exception:       # noqa: BLE001
+                    continue
+                for p, st in walk_stmts(f.ast):
+                    if len(enc_stmt(p)) != 1:
+                        continue
+                    try:
+                        sub = [enc_stmt(c.path) for c in S.sites(strat, f, within=StmtCursor(f.ast, p), **skw) if isinstance(c, StmtCursor)]
+                    except Exception as e:      # noqa: BLE001
+                        sub = None
+                    recs.append({'kind': 'within', 'prog': name, 'src': text, 'config': cname + ':within', 'where': -999, 'outcome': 'ok',
+                                 'full': full, 'sub': sub if sub is not None else [], 'failed': sub is None, 'at': enc_stmt(p)})
             # chains: a cursor taken before two strategies and forwarded across both
             try:
                 g1 = S.unroll_for(f, None, 1)
@@ -401,10 +427,10 @@ def run(tier: str) -> int:
         rep.mismatch({'clause': mm[1], 'config': r['config']},
                      {'src': r['src'], 'config': r['config'], 'where': r['where'], 'outcome': r['outcome'],
                       'sites': r.get('sites', r.get('marks')), 'edits': r.get('edits', r.get('gone')),
-                      'fw': r.get('fw', r.get('efw'))[:12], 'clause': mm[1]})
+                      'fw': (r.get('fw', r.get('efw')) or [])[:12], 'clause': mm[1], 'full': r.get('full'), 'sub': r.get('sub'), 'at': r.get('at')})
     rep.cov.update({'evaluations': len(recs), 'traces_validated_against_impl': len(recs),
                     'distinct_nontrivial': sum(1 for r in recs if r.get('edits') or r.get('gone')),
-                    'cursors_forwarded': sum(len(r.get('fw', r.get('efw'))) for r in recs),
+                    'cursors_forwarded': sum(len(r.get('fw', r.get('efw')) or []) for r in recs),
                     'expression_sited_applications': sum(1 for r in recs if r.get('kind') == 'expr'),
                     'rule': 'seeded marker programs x 8 aimable strategy configurations x where in {None, -1, 0..k}; every statement cursor of '
                             'the old program forwarded; non-trivial = the application produced edits'})
